@@ -32,12 +32,17 @@ TRUSTED = [
     "be placed at a chosen offset",
     "portalocker advisory-lock semantics (real portalocker is used; the controller probes the lock file itself)",
     "no network: make_url_request is replaced by a stub raising URLError (this sandbox is offline anyway)",
-    "the repaired protocol (KLoadFixed/KRefreshFixed) is the operation sequence of the four patches fix-F1..F4 "
-    "(acquire the lock; copy to <name>.<pid>.tmp then os.replace; look a missing version up in the installed folder; "
-    "tolerant stamp read + atomic stamp write). With VERIF_C19_FIXED=1 a tree carrying the patches is driven against "
-    "these programs and the oracle accepts no known-finding class; with the default 0 the code as it is is driven "
-    "against KLoad/KRefresh. In the children the real portalocker.Lock is used (file opened once, every attempt "
-    "locks that open file); only its retry pacing is replaced: MAXTRIES attempts, one gate each = the model's max_tries",
+    "the code as it is = /repo with the fix commits da46472 (C19-F1 lock acquired), 19ec63c (C19-F2 copy to "
+    "<name>.<pid>.tmp then os.replace), 160dd4a (C19-F3 missing bundled version looked up in the installed folder, "
+    "except tuples), b23f2f7 (C19-F4 tolerant stamp read + atomic stamp write): it is driven against the model kinds "
+    "KLoadFixed/KRefreshFixed (VERIF_C19_FIXED>=1) and the oracle accepts no class of those four findings. "
+    "VERIF_C19_FIXED=0 drives a tree from BEFORE those commits against KLoad/KRefresh (record of the repaired "
+    "defects); VERIF_C19_FIXED=2 (the default: /repo carries fix-F5 as commit 8dfe516) drives a tree that also has the parse fall-back (parse_fallback); VERIF_C19_FIXED=1 a tree before 8dfe516. In the children "
+    "the real portalocker.Lock is used (file opened once, every attempt locks that open file); only its retry pacing "
+    "is replaced: MAXTRIES attempts, one gate each = the model's max_tries",
+    "platform trust, not proved: the locking primitive behind portalocker (BSD flock on Linux) gives locks that "
+    "belong to the open file (model switch per_process_locks = false) and are dropped when the process dies; the "
+    "same-process / nested-CacheLock schedules of every run test exactly this on the platform at hand",
 ]
 ASSUMPTIONS = [
     "process death = the process stops between two file operations (or between two chunks of a copy); the model's "
@@ -46,17 +51,37 @@ ASSUMPTIONS = [
     "CACHE_TIME_THRESHOLD",
     "fixed_load_terminates bounds the loader's own steps; lock-attempt pacing (sleep between attempts) is abstracted "
     "into max_tries",
+    "directory states: the theorems C19_*_any_directory start from an ARBITRARY directory (leftover temporary files, "
+    "any/torn stamp, lock file, foreign locks, any clock) under the single requirement dir_ok = every final-name "
+    "HED*.xml already present is complete; the harness prepares such directories AND directories with torn "
+    "final-name files -- on those the code as it is fails (open finding C19-F5, C19_preexisting_torn_file_witness); "
+    "mixing pre-fix and current processes in one schedule is not modelled",
+    "a bundled file is ONE index in the model, used by the cache look-up and by the installed-folder look-up alike; "
+    "that both look-ups of the real code use the same key (version AND library name) is tested, not proved: every "
+    "bundled version, standard and library, is loaded by number through the default cache directory and through "
+    "xml_folder after populations interrupted before its own file was renamed",
+    "clock: schedules contain forward ticks and steps BACK (model event Back), and prepared time stamps lie before, "
+    "at and after the caller's clock; one virtual clock per schedule (hosts with skewed clocks are represented by a "
+    "stamp in the future / a step back, not by per-process clocks)",
+    "contenders living in threads of one process or in nested CacheLock objects are checked by the oracle on the "
+    "real processes only (who is inside after every event); the Coq theorem covers them as separate lock owners "
+    "under per_process_locks = false",
 ]
 
 NCH = 2
 VT0 = 10000
 MAXTRIES = 3
-# 1: the tree under test carries the four repairs (fix-F1..F4); the real code is then driven against the model's
-# repaired programs (KLoadFixed / KRefreshFixed) and the oracle demands the full property, no known-finding classes
-FIXED = int(os.environ.get("VERIF_C19_FIXED", "1"))   # fix: commits da46472, 19ec63c, 160dd4a, b23f2f7 are in /repo
+# 1 (default): the tree under test is the code as it is, i.e. it carries the fix commits da46472 (C19-F1), 19ec63c
+#    (C19-F2), 160dd4a (C19-F3), b23f2f7 (C19-F4); it is driven against KLoadFixed / KRefreshFixed and none of those
+#    four finding classes is accepted.  The open finding C19-F5 (pre-existing torn final-name file) is still accepted.
+# 0: a tree from before those commits (record of the repaired defects), driven against KLoad / KRefresh.
+# 2: a tree that also carries fix-F5 (commit 8dfe516, parse_fallback) = /repo; no finding class at all is accepted.
+FIXED = int(os.environ.get("VERIF_C19_FIXED", "2"))   # 2: /repo carries fix-F5 as commit 8dfe516
 
 
 def _fid(x):
+    if x == "C19-F5":
+        return x if FIXED < 2 else None
     return None if FIXED else x
 
 # ------------------------------------------------------------------------------------------------
@@ -106,7 +131,7 @@ class _Instr:
         self.conn.send(("gate", list(name), int(self.inside)))
         msg = self.conn.recv()
         self.vtime = float(msg[1])
-        self.gv[0] = max(self.gv[0], self.vtime)
+        self.gv[0] = self.vtime      # the controller's clock at the latest 'go' (it may have been stepped back)
 
     def install(self):
         import hed.schema.hed_cache as hc
@@ -457,8 +482,14 @@ class _Instr:
         try:
             if kind == "load":
                 v = call["version"]
-                s = hio.load_schema_version(v)
-                ref = self.orig_load(os.path.join(self.inst, "HED" + v + ".xml"))
+                if call.get("via") == "xml_folder":
+                    # the cache directory is passed explicitly; the default one is somewhere else
+                    other = self.dir + "-default"
+                    hc.set_cache_directory(other)
+                    s = hio.load_schema_version(v, xml_folder=self.dir)
+                else:
+                    s = hio.load_schema_version(v)
+                ref = self.orig_load(os.path.join(self.inst, vfile(v)))
                 out["result"] = ["ok", bool(s == ref)]
             elif kind == "refresh":
                 r = hc.cache_xml_versions(cache_folder=self.dir)
@@ -689,8 +720,10 @@ def run_case(case):
             nonlocal vtime
             k, x = ev
             if k == "T":
+                if x < 0:
+                    x = -min(-x, vtime)                                      # (the clock never goes below 0)
                 vtime += x
-                out["events"].append(["T", x])
+                out["events"].append(["T", x] if x >= 0 else ["B", -x])    # B: the clock is stepped back
                 out["gates"].append(None)
                 return
             p = procs[x]
@@ -758,6 +791,7 @@ def run_case(case):
                 except OSError:
                     pass
         shutil.rmtree(d, ignore_errors=True)
+        shutil.rmtree(d + "-default", ignore_errors=True)
         for spec in case["procs"]:
             pass
         for n in os.listdir(case["scratch"]):
@@ -831,7 +865,7 @@ def model_line(case, nfiles, th):
         kinds.append({"load": lambda: ["LF" if FIXED else "L", s["vindex"]],
                       "refresh": lambda: "RF" if FIXED else "R",
                       "move": lambda: ["D", s["findex"]]}[s["kind"]]())
-    return C.to_sx([[nfiles, NCH, th, MAXTRIES, 0], [fl, st, init.get("lockfile", 0), VT0], kinds,
+    return C.to_sx([[nfiles, NCH, th, MAXTRIES, 2 if FIXED >= 2 else 0], [fl, st, init.get("lockfile", 0), VT0], kinds,
                     [list(e) for e in case["events_executed"]]])
 
 
@@ -940,8 +974,14 @@ def oracle(case, out, res, nfiles):
             if o == "loaded":
                 continue
             listing = r.get("listing") or []
-            vname = "HED" + spec["version"] + ".xml"
-            if o == "parse" and r.get("read_status") == "torn":
+            vname = vfile(spec["version"])
+            pre = init.get("files", {}).get(spec.get("vindex"), init.get("files", {}).get(str(spec.get("vindex"))))
+            if o == "parse" and r.get("read_status") == "torn" and FIXED and pre is not None \
+                    and list(pre) != ["G"] * NCH:
+                res.report("load-succeeds/pre-existing-torn-file", cid,
+                           f"proc {i}: {r['result'][1:4]} reading {vname}, which was already torn ({list(pre)}) "
+                           "when the processes started", fid=_fid("C19-F5"))
+            elif o == "parse" and r.get("read_status") == "torn":
                 res.report("load-succeeds/no-torn-file-served", cid,
                            f"proc {i}: {r['result'][1:4]} reading a torn {vname}", fid=_fid("C19-F2"))
             elif o in ("urlerror", "notcached") and listing and vname not in listing:
@@ -976,7 +1016,9 @@ def oracle(case, out, res, nfiles):
         r = out["results"][att["mp"]]
         if att["age"] is None or not r or "result" not in r:
             continue
-        if 0 <= att["age"] < th and (canon_result(r) != "skipped" or r.get("netcalls")):
+        # (a recorded time up to one interval AHEAD of the caller's clock -- clock stepped back, skewed hosts --
+        #  is inside the interval just as well: now - last < threshold)
+        if -th < att["age"] < th and (canon_result(r) != "skipped" or r.get("netcalls")):
             res.report("refresh-within-interval-skipped", cid,
                        f"call {att['mp']} entered cache_xml_versions {att['age']:.0f} s after the time recorded in "
                        f"last_update.txt (interval {th} s) but was not skipped: result {r['result']}, "
@@ -1071,8 +1113,14 @@ def compare(case, out, m, res, nfiles):
 # cases
 # ------------------------------------------------------------------------------------------------
 
-def load_spec(version, files):
-    return {"kind": "load", "version": version, "vindex": files.index("HED" + version + ".xml")}
+def vfile(version):
+    """file name of a bundled version given by number: '8.3.0' / 'score_2.0.0' (library_version)"""
+    return "HED" + ("_" if "_" in version else "") + version + ".xml"
+
+
+def load_spec0(version, files, via="default"):
+    """via: 'default' = through the default cache directory, 'xml_folder' = load_schema_version(v, xml_folder=dir)"""
+    return {"kind": "load", "version": version, "vindex": files.index(vfile(version)), "via": via}
 
 
 def build_cases(rng, tier, files, th, wide):
@@ -1081,7 +1129,12 @@ def build_cases(rng, tier, files, th, wide):
     cases = []
     V = "8.3.0"
     vi = files.index("HED8.3.0.xml")
-    versions = ["8.3.0", "8.0.0", "8.1.0", "8.2.0"]
+    # EVERY bundled version, standard and library (score_x, testlib_x), as it is given by number
+    versions = sorted(n[3:-4].lstrip("_") for n in files)
+    _ls = load_spec0
+
+    def load_spec(v, fs, via=None):          # the way in is an input dimension too
+        return _ls(v, fs, via or rng.choice(["default", "default", "xml_folder"]))
 
     def add(what, procs, schedule, init=None, **kw):
         cases.append(dict(id=len(cases), what=what, procs=procs, schedule=schedule, init=init or {}, **kw))
@@ -1092,7 +1145,7 @@ def build_cases(rng, tier, files, th, wide):
     if vi == 0:
         g_between = 2 + 4        # make sure something is in the directory
     L = load_spec(V, files)
-    v2 = next(v for v in versions if files.index("HED" + v + ".xml") > 0)
+    v2 = next(v for v in versions if files.index(vfile(v)) > 0)
     add("F2 torn: kill inside the in-place copy, then load", [L, L], [["R", 0]] * g_mid + [["C", 0]])
     add("F2 torn-live: concurrent load reads the half-copied file", [L, L], [["R", 0]] * g_mid + [["R", 1]] * 3)
     Lb = load_spec(V if vi > 0 else v2, files)
@@ -1105,6 +1158,22 @@ def build_cases(rng, tier, files, th, wide):
     add("F1 lock overlap: both inside with CacheLock", [L, L], [["R", 0], ["R", 1]] * 3,
         probe_lock_after=5 if FIXED else 3)
     add("F1 lock timeout: contender while lock file is held", [{"kind": "hold"}], [], external_lock=True)
+    # -- EVERY bundled version after a population interrupted before its own file was renamed (also before the
+    #    first rename), loaded through the default cache directory and through xml_folder
+    per = 5 if FIXED else 4
+    for v in versions:
+        idx = files.index(vfile(v))
+        hi = 2 + (1 if FIXED else 0) + per * idx + (per - 1)        # the gate of v's own rename / last write
+        g = rng.randint(1, max(1, hi))
+        add(f"population killed at gate {g} before {v} is in the cache, then loads of {v}",
+            [_ls(rng.choice(versions), files, "default"), _ls(v, files, "default"), _ls(v, files, "xml_folder")],
+            [["R", 0]] * g + [["C", 0]] + [["R", 1]] * 70 + [["T", rng.choice([10, th + 10])]] + [["R", 2]] * 70)
+    # -- recorded time before / equal / AFTER 'now' and around the threshold (clock stepped back, skewed hosts)
+    for age in [-1, -5, -(th - 1), -th, -(th + 50), -3 * th]:
+        add(f"refresh at stamp age {age}", [{"kind": "refresh"}], [], init={"stamp": ["A", VT0 - age]})
+    add("refresh, clock stepped back, refresh again", [{"kind": "seq", "calls": [{"kind": "refresh"}] * 2},
+                                                        {"kind": "refresh"}],
+        [["U", 0], ["T", -5], ["U", 1], ["T", -(th // 2)], ["U", 0]])
     # -- lock queues: >= 3 contenders that all found the folder empty; a waiter is already blocked inside acquire
     #    (lock file open, an attempt failed) when the holder leaves / is killed; later arrivals try afterwards
     pop = 5 * nf + 2 if FIXED else 4 * nf + 2
@@ -1186,10 +1255,10 @@ def build_cases(rng, tier, files, th, wide):
             x = rng.randrange(n)
             sch.append(["U", x] if rng.random() < 0.75 else ["R", x])
             if rng.random() < 0.7:
-                sch.append(["T", rng.choice([1, 5, 60, th // 2, th - 1, th, th + 10, 2 * th])])
+                sch.append(["T", rng.choice([1, 5, 60, th // 2, th - 1, th, th + 10, 2 * th, -3, -60, -(th // 2), -th])])
         init = {}
         if rng.random() < 0.5:
-            init["stamp"] = ["A", VT0 - rng.choice([0, 100, th - 1, th, th + 50, 4 * th])]
+            init["stamp"] = ["A", VT0 - rng.choice([0, 100, th - 1, th, th + 50, 4 * th, -4, -100, -(th - 1), -2 * th])]
         add("several calls per OS process interleaved with ticks", ps, sch, init=init)
     for k in range(8 if tier == "quick" else 60):
         n = rng.choice([3, 3, 4])
@@ -1225,13 +1294,13 @@ def build_cases(rng, tier, files, th, wide):
     n_prep = (30 if tier == "quick" else 400) * (3 if wide else 1)
     for k in range(n_prep):
         v = rng.choice(versions)
-        idx = files.index("HED" + v + ".xml")
+        idx = files.index(vfile(v))
         init = {"files": {}}
         mode = rng.random()
         present = [i for i in range(nf) if rng.random() < rng.choice([0.0, 0.3, 0.9, 1.0])]
         for i in present:
             init["files"][i] = ["G", "G"]
-        if mode < 0.35 and not FIXED:      # malformed: some file torn (states the repaired code cannot leave)
+        if mode < 0.35:      # malformed: some final-name file torn (left by a version before 19ec63c, or by hand)
             j = rng.choice(present + [idx])
             init["files"][j] = rng.choice([[], ["G"], ["H", "G"], ["G", "H"], ["H"]])
         st = rng.random()
